@@ -58,7 +58,7 @@ _PATCH_TIME = ("tornado.ioloop", "tornado.httputil", "tornado.web",
 
 class SimEnv:
     def __init__(self, tapes_spec=None, *, max_iters=200_000, max_time=None,
-                 window=65536, full_log=False, urandom_seed=0):
+                 window=65536, full_log=False, urandom_seed=0, allow=()):
         self.tapes = Tapes(tapes_spec)
         self.log = EventLog(full=full_log)
         self.loop = SimLoop(self.tapes, self.log, max_iters=max_iters, max_time=max_time)
@@ -73,6 +73,8 @@ class SimEnv:
         self._gc_was = None
         self.main_task = None
         self.random_values = None  # optional list feeding random.random()
+        self.allow = set(allow)  # seam guards to leave open: "threads", "fork", "select"
+        self.breaches = []
 
     # -- deterministic stand-ins ----------------------------------------
     def _time(self):
@@ -118,8 +120,33 @@ class SimEnv:
             lg.setLevel(logging.DEBUG)
             lg.propagate = False
         self.loop.set_exception_handler(self._on_loop_error)
+        self._install_guards()
         self.alive = True
         return self
+
+    # -- seam integrity: the real facilities must not be reached during a run
+    def _breach(self, what):
+        def guard(*a, **k):
+            self.breaches.append(what)
+            raise RuntimeError(f"seam breach: real {what} reached inside a simulated run")
+        return guard
+
+    def _install_guards(self):
+        import select as _select
+        import subprocess as _subprocess
+        import threading as _threading
+        g = [(_socket, "socket", "socket.socket"), (_socket, "socketpair", "socket.socketpair"),
+             (_socket, "create_connection", "socket.create_connection"),
+             (_time, "sleep", "time.sleep"), (_subprocess, "Popen", "subprocess.Popen")]
+        if "threads" not in self.allow:
+            g.append((_threading.Thread, "start", "threading.Thread.start"))
+        if "fork" not in self.allow:
+            g.append((_os, "fork", "os.fork"))
+        if "select" not in self.allow:
+            g.append((_select, "select", "select.select"))
+        for obj, attr, what in g:
+            self._saved.append((obj, attr, getattr(obj, attr)))
+            setattr(obj, attr, self._breach(what))
 
     def _on_loop_error(self, loop, context):
         exc = context.get("exception")
@@ -218,4 +245,5 @@ class SimEnv:
             "sig": self.tapes.sig.hexdigest()[:16],
             "digest": self.log.digest(),
             "events": self.log.n,
+            "breaches": list(self.breaches),
         }
